@@ -93,10 +93,11 @@ def convertMCNPGeometry(mcnp_parser, lattice_params, args):
     dic_volume, mcnp_new_dict, dic_surface_t4, skipped_cells, union_ids = vol_conv
     renumber = None
     if not args.skip_deduplication:
-        flagged = set(key for key, surfs in dic_surface_mcnp.items()
-                      if surfs[0][0].boundary_cond != '')
+        flags = {key: surfs[0][0].boundary_cond
+                 for key, surfs in dic_surface_mcnp.items()
+                 if surfs[0][0].boundary_cond != ''}
         dic_surface_t4, renumber = remove_duplicate_surfaces(dic_surface_t4,
-                                                             keep=flagged)
+                                                             flags)
         dic_volume = renumber_surfaces(dic_volume, renumber)
         # the auxiliary planes for unions may have been merged into identical
         # user-defined surfaces
